@@ -295,7 +295,7 @@ func doSearch(eng Engine, res *Result, name, prop, tier, variant string) {
 	gcEvery := envInt("VERIF_GC_EVERY", 64)
 	crumb := os.Getenv("VERIF_BREADCRUMB")
 	for i := 0; i < maxRuns; i++ {
-		if i&7 == 0 && time.Now().After(deadline) {
+		if time.Now().After(deadline) {
 			break
 		}
 		if i%gcEvery == gcEvery-1 {
